@@ -139,6 +139,54 @@ func init() {
 	}
 }
 
+func init() {
+	logger := func() *doubles.Logger { return doubles.NewLogger() }
+	ids := [][]byte{[]byte("node-a-0000000000000"), []byte("node-b-0000000000000"), []byte("node-c-0000000000000")}
+	// choseSubmitter alone (two submitter channels of capacity 1, error channel)
+	wires["query.sys|dosnode.choseSubmitter"] = func(s *scen, ctx context.Context, cancel context.CancelFunc) (*instance, error) {
+		inst := &instance{chans: map[string]reflect.Value{}, cancel: cancel, watch: []string{"dosnode.choseSubmitter"}}
+		inst.value = func(string, int) reflect.Value { return rv(nil) }
+		inst.start = func() {
+			outs, errc := dosnode.VerifChoseSubmitter(ctx, doubles.NewP2P(ids[0], 1), &doubles.Chain{BlockTime: 1}, big.NewInt(7), ids, 2, logger())
+			inst.chans["dosnode.choseSubmitter.outs#0"] = rv(outs[0])
+			inst.chans["dosnode.choseSubmitter.outs#1"] = rv(outs[1])
+			inst.chans["dosnode.choseSubmitter.errc#0"] = rv(errc)
+		}
+		startNow(s, inst)
+		return inst, nil
+	}
+	// genSysRandom alone
+	wires["query.sys|dosnode.genSysRandom"] = func(s *scen, ctx context.Context, cancel context.CancelFunc) (*instance, error) {
+		submitterc := make(chan []byte, 1)
+		inst := &instance{chans: map[string]reflect.Value{"dosnode.choseSubmitter.outs#0": rv(submitterc)}, cancel: cancel, watch: []string{"dosnode.genSysRandom"}}
+		inst.value = func(string, int) reflect.Value { return rv(ids[1]) }
+		inst.start = func() {
+			out := dosnode.VerifGenSysRandom(ctx, submitterc, big.NewInt(7).Bytes(), logger())
+			inst.chans["dosnode.genSysRandom.out#0"] = rv(out)
+		}
+		startNow(s, inst)
+		return inst, nil
+	}
+	// reportQueryResult alone (the chain double accepts, or fails when the error branch is picked)
+	wires["query.sys|dosnode.reportQueryResult"] = func(s *scen, ctx context.Context, cancel context.CancelFunc) (*instance, error) {
+		signc := make(chan *vss.Signature)
+		chain := &doubles.Chain{BlockTime: 1}
+		if i, ok := s.pick["if err != nil"]; ok && i == 0 {
+			chain.Err = errors.New("chain call failed")
+		}
+		inst := &instance{chans: map[string]reflect.Value{"dosnode.recoverSign.out#0": rv(signc)}, cancel: cancel, watch: []string{"dosnode.reportQueryResult"}}
+		inst.value = func(string, int) reflect.Value {
+			return rv(&vss.Signature{RequestId: []byte{1}, Content: []byte("c"), Signature: []byte("s")})
+		}
+		inst.start = func() {
+			errc := dosnode.VerifReportQueryResult(ctx, chain, uint32(onchain.TrafficSystemRandom), signc)
+			inst.chans["dosnode.reportQueryResult.errc#0"] = rv(errc)
+		}
+		startNow(s, inst)
+		return inst, nil
+	}
+}
+
 // startNow starts the code under test at once unless the script contains `go`
 func startNow(s *scen, inst *instance) {
 	for _, op := range s.ctl {
